@@ -378,8 +378,8 @@ def entropies(cx):
                 rep = REPS[(di + ki + rep_i) % 3]
                 if rep == "sparse" and not ket:
                     rep = "qarray"
-                base = dict(dims=dims, state=kind, rep=rep, r=rep_i, input=("sparse-" if rep == "sparse" else "") +
-                            ("ket" if ket else "op"))
+                base = dict(dims=dims, has_dim1=bool(1 in dims), state=kind, rep=rep, r=rep_i,
+                            input=("sparse-" if rep == "sparse" else "") + ("ket" if ket else "op"))
                 xq = lambda x=x, rep=rep: as_rep(qu, sp, x, rep)  # noqa: E731
                 U = local_unitary(rng, dims)
                 perm = [int(q) for q in rng.permutation(n)]
@@ -407,7 +407,7 @@ def entropies(cx):
 
                     def t_trs(xq=xq, rho=rho):
                         ref = float(np.sqrt(np.clip(evals_psd(rho), 0, None)).sum())
-                        return scalar_close(qu.tr_sqrt(xq()), ref, "tr_sqrt", tol=1e-7)
+                        return scalar_close(qu.tr_sqrt(xq()), ref, "tr_sqrt", tol=1e-6, rel=False)
 
                     cx.check("tr_sqrt(rho) == sum sqrt(eigenvalues)", base, t_trs)
 
@@ -460,7 +460,7 @@ def entropies(cx):
                                 scalar_close(qu.entropy_subsys(xq(), dims, sa_arg, approx_thresh=thr), SA, "entropy_subsys"),
                                 scalar_close(qu.entropy_subsys(xq(), dims, sa_arg), SA, "entropy_subsys (default threshold)"),
                                 scalar_close(qu.tr_sqrt_subsys(xq(), dims, sa_arg, approx_thresh=thr), float(np.sqrt(lam).sum()),
-                                             "tr_sqrt_subsys", tol=1e-7))
+                                             "tr_sqrt_subsys", tol=1e-6, rel=False))
                             if e:
                                 return e
                             if sysb:
@@ -551,8 +551,8 @@ def negativity_driver(cx):
                 rep = REPS[(di + ki + rep_i + 1) % 3]
                 if rep == "sparse" and not ket:
                     rep = "ndarray"
-                base = dict(dims=dims, state=kind, rep=rep, r=rep_i, input=("sparse-" if rep == "sparse" else "") +
-                            ("ket" if ket else "op"))
+                base = dict(dims=dims, has_dim1=bool(1 in dims), state=kind, rep=rep, r=rep_i,
+                            input=("sparse-" if rep == "sparse" else "") + ("ket" if ket else "op"))
                 xq = lambda x=x, rep=rep: as_rep(qu, sp, x, rep)  # noqa: E731
                 U = local_unitary(rng, dims)
                 perm = [int(q) for q in rng.permutation(n)]
@@ -581,9 +581,13 @@ def negativity_driver(cx):
                               dA=dA, dB=dB, kind=kind):
                         N = negativity_ref(rho, dims, sysa)
                         LN = logneg_ref(rho, dims, sysa)
-                        e = first(scalar_close(qu.negativity(xq(), dims, sa_arg), N, "negativity", tol=1e-8),
-                                  scalar_close(qu.logneg(xq(), dims, sa_arg), LN, "logneg", tol=1e-8),
-                                  scalar_close(qu.logarithmic_negativity(xq(), dims, sa_arg), LN, "logarithmic_negativity", tol=1e-8))
+                        # operator path: trace norm from |eigenvalues| (Lipschitz) -> 1e-8; ket path: (sum of sqrt of the
+                        # reduced spectrum)^2, sqrt is not Lipschitz at the null eigenvalues -> d*sqrt(eps) ~ 1e-6
+                        tl = 1e-6 if ket else 1e-8
+                        e = first(scalar_close(qu.negativity(xq(), dims, sa_arg), N, "negativity", tol=tl, rel=False),
+                                  scalar_close(qu.logneg(xq(), dims, sa_arg), LN, "logneg", tol=tl, rel=False),
+                                  scalar_close(qu.logarithmic_negativity(xq(), dims, sa_arg), LN, "logarithmic_negativity", tol=tl,
+                                               rel=False))
                         if e:
                             return e
                         m = min(dA, dB)
@@ -595,7 +599,7 @@ def negativity_driver(cx):
                             return f"reference: separable state with negativity {N}"
                         if ket:
                             s_ = np.sqrt(np.clip(evals_psd(ptrace(rho, dims, sysa)), 0, None))
-                            if abs(N - ((s_.sum()) ** 2 - 1) / 2) > 1e-8:
+                            if abs(N - ((s_.sum()) ** 2 - 1) / 2) > 1e-6:
                                 return "reference: pure-state negativity != ((sum of Schmidt coefficients)^2 - 1)/2"
                             e = first(scalar_close(qu.negativity(qu.qarray(rho), dims, sa_arg), N, "negativity(projector of the ket)",
                                                    tol=1e-7),
@@ -604,17 +608,17 @@ def negativity_driver(cx):
                             if e:
                                 return e
                         if sysb:
-                            e = scalar_close(qu.negativity(xq(), dims, sysb), N, "negativity(A<->B)", tol=1e-8)
+                            e = scalar_close(qu.negativity(xq(), dims, sysb), N, "negativity(A<->B)", tol=tl, rel=False)
                             if e:
                                 return e
                         y = U @ np.asarray(x) if ket else U @ rho @ U.conj().T
-                        e = scalar_close(qu.logneg(qu.qarray(y), dims, sa_arg), LN, "logneg(local unitaries)", tol=1e-7)
+                        e = scalar_close(qu.logneg(qu.qarray(y), dims, sa_arg), LN, "logneg(local unitaries)", tol=tl, rel=False)
                         if e:
                             return e
                         nd = [dims[q] for q in perm]
                         ns = tuple(perm.index(q) for q in sysa)
                         return scalar_close(qu.negativity(qu.qarray(permute_sys(x, dims, perm)), nd, ns), N,
-                                            "negativity(relabelled subsystems)", tol=1e-7)
+                                            "negativity(relabelled subsystems)", tol=tl, rel=False)
 
                     cx.check("negativity / logneg == trace norm of the partial transpose; bounds; symmetric; invariances; ket == projector",
                              p, t_neg)
@@ -643,11 +647,11 @@ def negativity_driver(cx):
                             ns = tuple(kept.index(q) for q in sysa)
                             ref = logneg_ref(rab, nd, ns)
                             e = scalar_close(qu.logneg_subsys(xq(), dims, sa_arg, sb_arg, approx_thresh=thr), ref, "logneg_subsys",
-                                             tol=1e-7)
+                                             tol=1e-6, rel=False)
                             if e:
                                 return e
                             e = scalar_close(qu.logneg_subsys(xq(), dims, sb_arg, sa_arg, approx_thresh=thr), ref,
-                                             "logneg_subsys(A<->B)", tol=1e-7)
+                                             "logneg_subsys(A<->B)", tol=1e-6, rel=False)
                             if e:
                                 return e
                             return scalar_close(qu.logneg(qu.qarray(rab), nd, ns), ref, "logneg(reduced operator)", tol=1e-7)
@@ -786,8 +790,9 @@ def distances(cx):
                         return scalar_close(qu.trace_distance(qu.qarray(ua), qu.qarray(ub), isherm=herm), T, "trace_distance(U a, U b)",
                                             tol=tol_, rel=False)
 
+                    ov1 = bool(ka and kb and abs(np.vdot(a, b)) ** 2 >= 1 - 1e-12)
                     cx.check("trace_distance == ||a - b||_1 / 2; symmetric; in [1-F, sqrt(1-F^2)]; unitary invariant; ket == projector",
-                             dict(p, isherm=herm), t_td)
+                             dict(p, isherm=herm, kets_overlap_one=ov1), t_td)
 
                 if not ka and rep_i == 0 and k2 == kinds[0]:
                     def t_pur(aq=aq, ra=ra, d=d):
@@ -879,7 +884,7 @@ def two_qubit(cx):
         rep = REPS[i % 3]
         if rep == "sparse" and not ket:
             rep = "qarray"
-        p = dict(i=i, state=kind, dims=dims, sysa=sysa, sysb=sysb, reversed=bool(sysa > sysb), rep=rep,
+        p = dict(i=i, state=kind, dims=dims, has_dim1=bool(1 in dims), sysa=sysa, sysb=sysb, reversed=bool(sysa > sysb), rep=rep,
                  input=("sparse-" if rep == "sparse" else "") + ("ket" if ket else "op"))
         xq = lambda x=x, rep=rep: as_rep(qu, sp, x, rep)  # noqa: E731
         rho2 = dm(x2)
@@ -895,7 +900,7 @@ def two_qubit(cx):
                 return f"reference: separable state with concurrence {C}"
             if ket:
                 v = np.asarray(x2).reshape(-1)
-                if abs(C - 2 * abs(v[0] * v[3] - v[1] * v[2])) > 1e-8:
+                if abs(C - 2 * abs(v[0] * v[3] - v[1] * v[2])) > 1e-7:
                     return "reference: pure-state concurrence != 2|ad - bc|"
             e = scalar_close(qu.concurrence(xq(), dims, sysa, sysb), C, "concurrence", tol=1e-7, rel=False)
             if e:
@@ -927,8 +932,18 @@ def two_qubit(cx):
             cx.check("one_way_classical_information == S(A) - sum_j p_j S(rho_A|j) for a projective measurement on B", p, t_owci)
 
         if i % 2 == 0 or not cx.quick:
-            def t_disc(xq=xq, rho2=rho2, dims=dims, sysa=sysa, sysb=sysb, kind=kind, ket=ket):
-                D = discord_ref(rho2)
+            # does a local optimiser started at the default point (pi/2, pi) reach the global optimum of the textbook
+            # objective?  (independent classification of the states on which a single-start search is not enough)
+            from scipy.optimize import minimize as _minimize
+
+            _glob = discord_ref(rho2)
+            _r = _minimize(lambda a_: cond_entropy_after_measurement(rho2, a_[0], a_[1]), (math.pi / 2, math.pi), method="COBYLA",
+                           bounds=((0, math.pi), (0, 2 * math.pi)), tol=1e-12, options=dict(maxiter=2 ** 14))
+            _sa = vn_entropy(ptrace(rho2, [2, 2], [0]))
+            _iab = _sa + vn_entropy(ptrace(rho2, [2, 2], [1])) - vn_entropy(rho2)
+            p = dict(p, single_start_suboptimal=bool(abs((_iab - (_sa - _r.fun)) - _glob) > 1e-6))
+
+            def t_disc(xq=xq, rho2=rho2, dims=dims, sysa=sysa, sysb=sysb, kind=kind, ket=ket, D=_glob):
                 if ket and abs(D - vn_entropy(ptrace(rho2, [2, 2], [0]))) > 1e-6:
                     return "reference: pure-state discord != entanglement entropy"
                 if kind in ("cq", "ket-product") and abs(D) > 1e-6:
@@ -1100,7 +1115,7 @@ def maps_and_measurement(cx):
                     idx = int(key, phys)
                     if probs[idx] < 1e-14:
                         return f"outcome {key} has probability zero"
-                    sig = math.sqrt(C * probs[idx] * (1 - probs[idx])) + 1
+                    sig = math.sqrt(max(0.0, C * probs[idx] * (1 - probs[idx]))) + 1
                     if abs(cnt - C * probs[idx]) > 6 * sig:
                         return f"outcome {key}: {cnt} counts, expected {C * probs[idx]:.1f} +- {sig:.1f}"
                 res2 = qu.simulate_counts(qu.qarray(y), C, phys_dim=phys, seed=seed)
@@ -1132,4 +1147,448 @@ def maps_and_measurement(cx):
             return None
 
         cx.check("dephase == (1-p) rho + p * (identity/d, or a random diagonal state of the requested rank)",
-                 dict(base, p=pd_, rand_rank=str(rr)), t_deph)
+                 dict(base, p=pd_, rand_rank=str(rr), rand_rank_int_one=bool(isinstance(rr, int) and rr == 1 and D > 1)), t_deph)
+
+
+# ----------------------------------------------------------------------------------------------
+# driver 6: decompositions, correlations, cross matrices, qid, degeneracy helpers, closed formulas
+# ----------------------------------------------------------------------------------------------
+
+BELLS = {  # documented enumeration of bell_state: 0 psi-, 1 psi+, 2 phi-, 3 phi+
+    "0": np.array([0, 1, -1, 0], dtype=complex) / math.sqrt(2),
+    "1": np.array([0, 1, 1, 0], dtype=complex) / math.sqrt(2),
+    "2": np.array([1, 0, 0, -1], dtype=complex) / math.sqrt(2),
+    "3": np.array([1, 0, 0, 1], dtype=complex) / math.sqrt(2),
+}
+
+
+@driver("C20", "decompositions-and-correlations", chunks=4, timeout=240,
+        bound="pauli_decomp (1..3 qubits), bell_decomp (1..2 pairs), correlation (dims with product <= 36, every ordered pair of "
+              "distinct subsystems, random hermitian A, B, dense / sparse operators, precomp_func), pauli_correlations (all options), "
+              "ent_cross_matrix (2..5 qubits, block sizes 1-2, logneg / mutinf / negativity, calc_self_ent, upscale), qid, "
+              "is_degenerate, is_eigenvector, page_entropy (formula and Monte-Carlo sanity), heisenberg_energy vs exact "
+              "diagonalisation of the periodic chain (L = 6..12, relative 2e-3)")
+def decompositions(cx):
+    import scipy.sparse as sp
+
+    import quimb as qu
+
+    rng = cx.rng
+    ncases = 36 if cx.quick else 240
+    for i in range(ncases * cx.nchunks):
+        if not cx.mine():
+            continue
+        if cx.out_of_time():
+            cx.inconclusive.append("decompositions-and-correlations: time budget exhausted")
+            return
+        which = i % 9
+        kind = (KET_KINDS + RHO_KINDS)[int(rng.integers(0, len(KET_KINDS + RHO_KINDS)))]
+        rep = REPS[int(rng.integers(0, 3))]
+
+        if which == 0:  # ---------------- pauli_decomp
+            nq = int(rng.integers(1, 4))
+            x = make_state(rng, [2] * nq, kind)
+            generic = bool(rng.integers(0, 3) == 0)
+            if generic:  # any operator, not only states
+                x = rng.normal(size=(2 ** nq, 2 ** nq)) + 1j * rng.normal(size=(2 ** nq, 2 ** nq))
+            if rep == "sparse" and not is_ket(x):
+                rep = "ndarray"
+            p = dict(i=i, fn="pauli_decomp", n=nq, state="operator" if generic else kind, rep=rep)
+
+            def t_pd(x=x, nq=nq, rep=rep):
+                res = qu.pauli_decomp(as_rep(qu, sp, x, rep), mode="c")
+                A = dm(x)
+                if len(res) != 4 ** nq:
+                    return f"{len(res)} entries, expected {4 ** nq}"
+                tot = np.zeros_like(A)
+                prev = None
+                for name, c in res.items():
+                    if len(name) != nq or any(ch not in "IXYZ" for ch in name):
+                        return f"bad name {name!r}"
+                    P = np.ones((1, 1), dtype=complex)
+                    for ch in name:
+                        P = np.kron(P, PAULI[ch])
+                    want = np.trace(P @ A) / 2 ** nq
+                    if abs(c - want) > 1e-10:
+                        return f"coefficient of {name}: {c} != tr(P a)/2^n = {want}"
+                    if prev is not None and abs(c) > prev + 1e-12:
+                        return "entries not sorted by decreasing magnitude"
+                    prev = abs(c)
+                    tot = tot + c * P
+                return mat_close(tot, A, "sum_P c_P P")
+
+            cx.check("pauli_decomp: c_P = tr(P a)/2^n for all 4^n strings, sorted by magnitude, sum c_P P == a", p, t_pd)
+
+        elif which == 1:  # ---------------- bell_decomp
+            npair = int(rng.integers(1, 3))
+            x = make_state(rng, [4] * npair, kind)
+            if rep == "sparse" and not is_ket(x):
+                rep = "qarray"
+            p = dict(i=i, fn="bell_decomp", pairs=npair, state=kind, rep=rep)
+
+            def t_bd(x=x, npair=npair, rep=rep):
+                res = qu.bell_decomp(as_rep(qu, sp, x, rep), mode="c")
+                A = dm(x)
+                if len(res) != 4 ** npair:
+                    return f"{len(res)} entries, expected {4 ** npair}"
+                tot = 0.0
+                for name, c in res.items():
+                    v = np.ones(1, dtype=complex)
+                    for ch in name:
+                        v = np.kron(v, BELLS[ch])
+                    want = np.vdot(v, A @ v)
+                    if abs(c - want) > 1e-10:
+                        return f"overlap with Bell string {name}: {c} != <b|a|b> = {want}"
+                    tot += c
+                return scalar_close(tot, float(np.trace(A).real), "sum of Bell-basis populations == trace")
+
+            cx.check("bell_decomp: population <b|a|b> of every product of Bell states (documented enumeration); populations sum to 1",
+                     p, t_bd)
+
+        elif which in (2, 3):  # ---------------- correlation / pauli_correlations
+            if which == 2:
+                dims = (DIMS_QUICK + DIMS_MORE)[int(rng.integers(0, len(DIMS_QUICK + DIMS_MORE)))]
+                if len(dims) < 2:
+                    dims = [2, 3]
+            else:
+                dims = [2] * int(rng.integers(2, 6))
+            n = len(dims)
+            x = make_state(rng, dims, kind)
+            if rep == "sparse" and not is_ket(x):
+                rep = "qarray"
+            sa, sb = [int(q) for q in rng.choice(n, size=2, replace=False)]
+            rho = dm(x)
+            if which == 2:
+                def herm(d):
+                    g = rng.normal(size=(d, d)) + 1j * rng.normal(size=(d, d))
+                    return g + g.conj().T
+
+                A, B = herm(dims[sa]), herm(dims[sb])
+                spops = bool(rng.integers(0, 2))
+                sparse_opt = (None, True, False)[int(rng.integers(0, 3))]
+                pre = bool(rng.integers(0, 2))
+                default_dims = bool(all(d == 2 for d in dims) and rng.integers(0, 2))
+                p = dict(i=i, fn="correlation", dims=dims, sysa=sa, sysb=sb, state=kind, rep=rep, sparse_ops=spops, sparse=str(sparse_opt),
+                         precomp=pre, default_dims=default_dims, ops_cover_all=bool(n == 2))
+
+                def t_corr(x=x, rho=rho, dims=dims, sa=sa, sb=sb, A=A, B=B, spops=spops, sparse_opt=sparse_opt, pre=pre, rep=rep,
+                           default_dims=default_dims):
+                    EA, EB = embed_op(A, dims, [sa]), embed_op(B, dims, [sb])
+                    ref = (np.trace(rho @ EA @ EB) - np.trace(rho @ EA) * np.trace(rho @ EB)).real
+                    Aq = sp.csr_matrix(A) if spops else qu.qarray(A)
+                    Bq = sp.csr_matrix(B) if spops else qu.qarray(B)
+                    kw = {} if default_dims else dict(dims=dims)
+                    if pre:
+                        f = qu.correlation(None, Aq, Bq, sa, sb, dims=dims, sparse=sparse_opt, precomp_func=True)
+                        got = f(as_rep(qu, sp, x, rep))
+                    else:
+                        got = qu.correlation(as_rep(qu, sp, x, rep), Aq, Bq, sa, sb, sparse=sparse_opt, **kw)
+                    return scalar_close(got, ref, "correlation", tol=1e-9)
+
+                cx.check("correlation == <A_a B_b> - <A_a><B_b>", p, t_corr)
+            else:
+                ss = (("xx", "yy", "zz"), ("xz",), ("zy", "yx", "xx", "zz"), "xy")[int(rng.integers(0, 4))]
+                sum_abs = bool(rng.integers(0, 2))
+                pre = bool(rng.integers(0, 2))
+                p_none = bool(pre and rng.integers(0, 2))  # documented: p is ignored when precomp_func=True
+                p = dict(i=i, fn="pauli_correlations", n=n, sysa=sa, sysb=sb, state=kind, rep=rep, ss=str(ss), sum_abs=sum_abs,
+                         precomp=pre, p_none=p_none)
+
+                def t_pc(x=x, rho=rho, dims=dims, sa=sa, sb=sb, ss=ss, sum_abs=sum_abs, pre=pre, rep=rep, p_none=p_none):
+                    pairs = [ss] if isinstance(ss, str) else list(ss)
+                    refs = []
+                    for s1, s2 in pairs:
+                        EA, EB = embed_op(PAULI[s1.upper()], dims, [sa]), embed_op(PAULI[s2.upper()], dims, [sb])
+                        refs.append((np.trace(rho @ EA @ EB) - np.trace(rho @ EA) * np.trace(rho @ EB)).real)
+                    arg = (ss,) if isinstance(ss, str) else ss
+                    got = qu.pauli_correlations(None if p_none else as_rep(qu, sp, x, rep), ss=arg, sysa=sa, sysb=sb, sum_abs=sum_abs,
+                                                precomp_func=pre)
+                    if pre:
+                        got = got(as_rep(qu, sp, x, rep)) if sum_abs else tuple(f(as_rep(qu, sp, x, rep)) for f in got)
+                    if sum_abs:
+                        return scalar_close(got, float(sum(abs(r) for r in refs)), "pauli_correlations(sum_abs)", tol=1e-9)
+                    if len(got) != len(refs):
+                        return f"{len(got)} values for {len(refs)} operator pairs"
+                    return first(*[scalar_close(g, r, f"pauli_correlations[{q}]", tol=1e-9) for q, (g, r) in enumerate(zip(got, refs))])
+
+                cx.check("pauli_correlations == <s1_a s2_b> - <s1_a><s2_b> per pair (sum_abs / precomp_func options)", p, t_pc)
+
+        elif which == 4:  # ---------------- ent_cross_matrix
+            nq = int(rng.integers(2, 6))
+            x = make_state(rng, [2] * nq, kind)
+            blc = int(rng.integers(1, 3)) if nq >= 3 else 1
+            fn_name = ("logneg", "mutinf", "negativity")[int(rng.integers(0, 3))]
+            self_ent = bool(rng.integers(0, 2))
+            upscale = bool(rng.integers(0, 2))
+            if rep == "sparse":
+                rep = "qarray"
+            p = dict(i=i, fn="ent_cross_matrix", n=nq, sz_blc=blc, ent_fn=fn_name, calc_self_ent=self_ent, upscale=upscale, state=kind,
+                     rep=rep)
+
+            def t_ecm(x=x, nq=nq, blc=blc, fn_name=fn_name, self_ent=self_ent, upscale=upscale, rep=rep):
+                rho = dm(x)
+                dims = [2] * nq
+                nb = nq // blc
+                db = 2 ** blc
+
+                def ent(r4):
+                    if fn_name == "logneg":
+                        return logneg_ref(r4, [db, db], [0])
+                    if fn_name == "negativity":
+                        return negativity_ref(r4, [db, db], [0])
+                    return vn_entropy(ptrace(r4, [db, db], [0])) + vn_entropy(ptrace(r4, [db, db], [1])) - vn_entropy(r4)
+
+                ref = np.full((nb, nb), np.nan)
+                for a in range(nb):
+                    for b in range(a, nb):
+                        sa_ = list(range(a * blc, (a + 1) * blc))
+                        sb_ = list(range(b * blc, (b + 1) * blc))
+                        if a == b:
+                            if not self_ent:
+                                continue
+                            # the block purified: entanglement between the block and its purifying partner
+                            ra = ptrace(rho, dims, sa_)
+                            lam, v = np.linalg.eigh(ra)
+                            psi = sum(math.sqrt(max(l_, 0.0)) * np.kron(v[:, q], np.eye(db)[q]) for q, l_ in enumerate(lam))
+                            val = ent(dm(psi.reshape(-1, 1)))
+                        else:
+                            val = ent(ptrace(rho, dims, sa_ + sb_))
+                        ref[a, b] = ref[b, a] = val / blc
+                if upscale:
+                    ref = np.kron(ref, np.ones((blc, blc)))
+                    if ref.shape[0] < nq:
+                        full = np.full((nq, nq), np.nan)
+                        full[: ref.shape[0], : ref.shape[0]] = ref
+                        ref = full
+                got = np.asarray(qu.ent_cross_matrix(as_rep(qu, sp, x, rep), sz_blc=blc, ent_fn=getattr(qu, fn_name),
+                                                     calc_self_ent=self_ent, upscale=upscale))
+                if got.shape != ref.shape:
+                    return f"shape {got.shape} != {ref.shape}"
+                if not np.array_equal(np.isnan(got), np.isnan(ref)):
+                    return f"NaN pattern differs: got {np.isnan(got).astype(int).tolist()} expected {np.isnan(ref).astype(int).tolist()}"
+                m = ~np.isnan(ref)
+                if m.any() and np.abs(got[m] - ref[m]).max() > 2e-6:
+                    return f"max abs diff {np.abs(got[m] - ref[m]).max():.2e}"
+                return None
+
+            cx.check("ent_cross_matrix[a,b] == ent_fn of the reduced pair of blocks / block size; diagonal = block vs its purification",
+                     p, t_ecm)
+
+        elif which == 5:  # ---------------- qid
+            dims = [[2, 2], [2, 2, 2], [2, 3, 2], [3, 2], [2, 2, 2, 2]][int(rng.integers(0, 5))]
+            x = make_state(rng, dims, kind)
+            qubits = [q for q, d in enumerate(dims) if d == 2]
+            inds = [int(q) for q in rng.choice(qubits, size=int(rng.integers(1, len(qubits) + 1)), replace=False)]
+            if rep == "sparse":
+                rep = "qarray"
+            power, coeff = int(rng.integers(1, 3)), float(rng.choice([1.0, 0.5]))
+            sparse_comp = bool(rng.integers(0, 2))
+            pre = bool(rng.integers(0, 2))
+            p = dict(i=i, fn="qid", dims=dims, inds=inds, state=kind, rep=rep, power=power, coeff=coeff, sparse_comp=sparse_comp, precomp=pre)
+
+            def t_qid(x=x, dims=dims, inds=inds, rep=rep, power=power, coeff=coeff, sparse_comp=sparse_comp, pre=pre):
+                rho = dm(x)
+                ref = []
+                for q in inds:
+                    tot = 0.0
+                    for P in (PX, PY, PZ):
+                        E = embed_op(P, dims, [q])
+                        tot += coeff * np.linalg.norm(rho @ E - E @ rho, 2) ** power
+                    ref.append(tot)
+                arg = inds[0] if len(inds) == 1 and pre else inds
+                if pre:
+                    got = qu.qid(None, dims, arg, precomp_func=True, sparse_comp=sparse_comp, power=power, coeff=coeff)(
+                        as_rep(qu, sp, x, rep))
+                else:
+                    got = qu.qid(as_rep(qu, sp, x, rep), dims, arg, sparse_comp=sparse_comp, power=power, coeff=coeff)
+                if len(got) != len(ref):
+                    return f"{len(got)} values for {len(ref)} sites"
+                return first(*[scalar_close(g, r, f"qid[{q}]", tol=1e-8) for q, (g, r) in enumerate(zip(got, ref))])
+
+            cx.check("qid == sum_s coeff * ||[rho, sigma_s on the site]||_2^power per site", p, t_qid)
+
+        elif which == 6:  # ---------------- is_degenerate / is_eigenvector
+            d = int(rng.integers(2, 13))
+            levels = np.sort(rng.normal(size=d))
+            ndeg = int(rng.integers(0, d // 2 + 1))
+            for q in rng.choice(d - 1, size=ndeg, replace=False):
+                levels[q + 1] = levels[q]
+            levels = np.sort(levels)
+            V = rand_unitary(rng, d)
+            A = (V * levels) @ V.conj().T
+            p = dict(i=i, fn="is_degenerate", d=d, ndeg=ndeg)
+
+            def t_deg(A=A, levels=levels, d=d):
+                gaps = np.diff(levels)
+                want = int((np.abs(gaps) < 1e-12 * (levels[-1] - levels[0]) / d).sum())
+                e = None
+                if int(qu.is_degenerate(levels)) != want:
+                    e = f"is_degenerate(eigenvalues) = {qu.is_degenerate(levels)} != {want}"
+                # through the operator the repeated levels are only equal to rounding: use a tolerance above it
+                want2 = int((np.abs(gaps) < 1e-9 * (levels[-1] - levels[0]) / d).sum())
+                got2 = int(qu.is_degenerate(qu.qarray(A), tol=1e-9))
+                if e is None and got2 != want2:
+                    e = f"is_degenerate(operator, tol=1e-9) = {got2} != {want2}"
+                return e
+
+            cx.check("is_degenerate == number of level spacings below tol * (spectral range / d)", p, t_deg)
+
+            vec_kind = ("eigen", "degenerate-mix", "generic", "near")[int(rng.integers(0, 4))]
+
+            def t_eig(A=A, V=V, levels=levels, d=d, vec_kind=vec_kind):
+                if vec_kind == "eigen":
+                    v, want = V[:, [d // 2]], True
+                elif vec_kind == "degenerate-mix":
+                    same = np.where(np.abs(levels - levels[0]) < 1e-14)[0]
+                    v = V[:, same] @ (np.arange(1, len(same) + 1) * (1 + 1j)).reshape(-1, 1)
+                    v, want = v / np.linalg.norm(v), True
+                elif vec_kind == "generic":
+                    v = np.ones((d, 1), dtype=complex) / math.sqrt(d)
+                    var = (np.vdot(v, A @ A @ v) - np.vdot(v, A @ v) ** 2).real
+                    want = bool(abs(var) < 1e-14)
+                    if 1e-15 < abs(var) < 1e-12:
+                        return None
+                else:
+                    v = V[:, [0]] + 1e-3 * V[:, [d - 1]]
+                    v = v / np.linalg.norm(v)
+                    var = (np.vdot(v, A @ A @ v) - np.vdot(v, A @ v) ** 2).real
+                    want = bool(abs(var) < 1e-14)
+                    if 1e-15 < abs(var) < 1e-12:
+                        return None
+                got = bool(qu.is_eigenvector(qu.qarray(v), qu.qarray(A), tol=1e-13 if want else 1e-14))
+                if got != want:
+                    return f"is_eigenvector = {got}, expected {want} ({vec_kind})"
+                return None
+
+            cx.check("is_eigenvector == (variance of A in x below tol)", dict(i=i, fn="is_eigenvector", d=d, vector=vec_kind), t_eig)
+
+        elif which == 7:  # ---------------- page_entropy
+            m = int(rng.integers(1, 9))
+            nn = int(rng.integers(m, 13))
+            swap = bool(rng.integers(0, 2))
+            p = dict(i=i, fn="page_entropy", sz_subsys=nn if swap else m, sz_total=m * nn)
+
+            def t_page(m=m, nn=nn, swap=swap):
+                # Page: S = sum_{k=n+1}^{mn} 1/k - (m-1)/(2n) nats for subsystem dimension m <= n
+                ref = (sum(1.0 / k for k in range(nn + 1, m * nn + 1)) - (m - 1) / (2 * nn)) / math.log(2)
+                e = scalar_close(qu.page_entropy(nn if swap else m, m * nn), ref, "page_entropy", tol=1e-10)
+                if e:
+                    return e
+                if not (-1e-12 <= ref <= math.log2(m) + 1e-12):
+                    return "reference Page entropy outside [0, log2 m]"
+                return None
+
+            cx.check("page_entropy == [sum_{k=n+1}^{mn} 1/k - (m-1)/(2n)] / ln 2 for the smaller subsystem m", p, t_page)
+
+        else:  # ---------------- heisenberg_energy
+            L = (6, 8, 10, 12)[int(rng.integers(0, 4 if not cx.quick else 3))]
+            p = dict(i=i, fn="heisenberg_energy", L=L)
+
+            def t_he(L=L):
+                import scipy.sparse as sps
+                from scipy.sparse.linalg import eigsh
+
+                sx = sps.csr_matrix(np.array([[0, .5], [.5, 0]]))
+                sy = sps.csr_matrix(np.array([[0, -.5j], [.5j, 0]]))
+                szz = sps.csr_matrix(np.array([[.5, 0], [0, -.5]]))
+
+                def site(op, q):
+                    return sps.kron(sps.kron(sps.identity(2 ** q), op), sps.identity(2 ** (L - q - 1)), format="csr")
+
+                H = sps.csr_matrix((2 ** L, 2 ** L), dtype=complex)
+                for q in range(L):
+                    r = (q + 1) % L
+                    for op in (sx, sy, szz):
+                        H = H + site(op, q) @ site(op, r)
+                e0 = float(eigsh(H.real.astype(float) if abs(H.imag).max() < 1e-14 else H, k=1, which="SA", return_eigenvectors=False)[0])
+                got = qu.heisenberg_energy(L)
+                if abs(got - e0) > 2e-3 * abs(e0):
+                    return f"heisenberg_energy({L}) = {got:.6f}, exact periodic chain {e0:.6f}"
+                return None
+
+            cx.check("heisenberg_energy(L) within 2e-3 (relative) of the exact ground energy of the periodic spin-1/2 chain", p, t_he)
+
+
+# ----------------------------------------------------------------------------------------------
+# driver 7: sparse inputs give the dense answer
+# ----------------------------------------------------------------------------------------------
+
+@driver("C20", "sparse-inputs", chunks=2, timeout=200,
+        bound="every measure that takes a state, evaluated on scipy csr kets and csr density operators (dims [2,2], [2,3], [2,2,2], "
+              "[3,4]) and compared with the plain-numpy reference (tolerances of the dense contracts)")
+def sparse_inputs(cx):
+    import scipy.sparse as sp
+
+    import quimb as qu
+
+    rng = cx.rng
+    dims_list = [[2, 2], [2, 3], [2, 2, 2], [3, 4]]
+    reps = 2 if cx.quick else 8
+    for di, dims in enumerate(dims_list):
+        for r_ in range(reps):
+            for inp in ("sparse-ket", "sparse-op"):
+                if not cx.mine():
+                    continue
+                D = int(np.prod(dims))
+                n = len(dims)
+                x = make_state(rng, dims, ("ket", "ket-sparse")[r_ % 2] if inp == "sparse-ket" else ("rho-low", "rho-full", "rho-diag")[r_ % 3])
+                rho = dm(x)
+                y = make_state(rng, dims, "rho-full")
+                sysa = tuple(sorted(int(q) for q in rng.choice(n, size=int(rng.integers(1, n)), replace=False)))
+                sysb = tuple(q for q in range(n) if q not in sysa)
+                xs = lambda x=x: sp.csr_matrix(np.array(x))  # noqa: E731
+                ys = lambda y=y: sp.csr_matrix(np.array(y))  # noqa: E731
+                SA = lambda: vn_entropy(ptrace(rho, dims, sysa))  # noqa: E731
+                # the measurement outcome (parity of the basis index) of larger probability
+                lev = 1.0 if np.diag(rho).real[1::2].sum() >= 0.5 else 0.0
+                table = {
+                    "entropy": (lambda: qu.entropy(xs()), lambda: vn_entropy(rho), 1e-9, "op"),
+                    "tr_sqrt": (lambda: qu.tr_sqrt(xs()), lambda: float(np.sqrt(np.clip(evals_psd(rho), 0, None)).sum()), 1e-6, "op"),
+                    "mutinf": (lambda: qu.mutinf(xs(), dims, sysa),
+                               lambda: SA() + vn_entropy(ptrace(rho, dims, sysb)) - vn_entropy(rho), 1e-8, "both"),
+                    "entropy_subsys": (lambda: qu.entropy_subsys(xs(), dims, sysa), SA, 1e-9, "ket"),
+                    "schmidt_gap": (lambda: qu.schmidt_gap(xs(), dims, sysa),
+                                    lambda: float(np.diff(np.sort(evals_psd(ptrace(rho, dims, sysa)))[-2:])[0]), 1e-8, "ket"),
+                    "partial_transpose": (lambda: qu.partial_transpose(xs(), dims, sysa), lambda: ptranspose(rho, dims, sysa), 1e-10, "both"),
+                    "negativity": (lambda: qu.negativity(xs(), dims, sysa), lambda: negativity_ref(rho, dims, sysa), 1e-6, "both"),
+                    "logneg": (lambda: qu.logneg(xs(), dims, sysa), lambda: logneg_ref(rho, dims, sysa), 1e-6, "both"),
+                    "fidelity": (lambda: qu.fidelity(xs(), ys()), lambda: fidelity_ref(rho, y), 1e-6, "both"),
+                    "trace_distance": (lambda: qu.trace_distance(xs(), ys()), lambda: trace_norm(rho - y) / 2, 1e-8, "both"),
+                    "purify": (lambda: ptrace(np.asarray(qu.purify(xs())), [D, D], [0]), lambda: rho, 1e-9, "op"),
+                    "kraus_op": (lambda: qu.kraus_op(xs(), [np.eye(D) * math.sqrt(0.5), np.fliplr(np.eye(D)) * math.sqrt(0.5)]),
+                                 lambda: 0.5 * rho + 0.5 * np.fliplr(np.eye(D)) @ rho @ np.fliplr(np.eye(D)), 1e-10, "op"),
+                    "measure": (lambda: qu.measure(xs(), qu.qarray(np.diag(np.arange(D) % 2).astype(complex)), eigenvalue=lev)[1],
+                                lambda: (lambda P: (P @ np.asarray(x) / math.sqrt(np.trace(P @ rho).real)) if is_ket(x) else
+                                         P @ rho @ P / np.trace(P @ rho).real)(np.diag((np.arange(D) % 2) == lev).astype(complex)), 1e-9,
+                                "both"),
+                    "simulate_counts": (lambda: sum(qu.simulate_counts(xs(), 50, seed=1).values()), lambda: 50, 0.5, "qubits"),
+                    "dephase": (lambda: qu.dephase(xs(), 0.25), lambda: 0.75 * rho + 0.25 * np.eye(D) / D, 1e-10, "op"),
+                    "pauli_decomp": (lambda: qu.pauli_decomp(xs(), mode="c")["I" * n], lambda: 1 / D, 1e-10, "qubits"),
+                    "correlation": (lambda: qu.correlation(xs(), qu.qarray(np.diag(np.arange(dims[0])).astype(complex)),
+                                                           qu.qarray(np.diag(np.arange(dims[-1])).astype(complex)), 0, n - 1, dims=dims),
+                                    lambda: (lambda EA, EB: (np.trace(rho @ EA @ EB) - np.trace(rho @ EA) * np.trace(rho @ EB)).real)(
+                                        embed_op(np.diag(np.arange(dims[0])), dims, [0]),
+                                        embed_op(np.diag(np.arange(dims[-1])), dims, [n - 1])), 1e-9, "both"),
+                    "ent_cross_matrix": (lambda: qu.ent_cross_matrix(xs())[0, 1],
+                                         lambda: logneg_ref(ptrace(rho, dims, [0, 1]), [2, 2], [0]), 1e-6, "qubits"),
+                    "is_eigenvector": (lambda: bool(qu.is_eigenvector(xs(), qu.qarray(rho))), lambda: True, 0.5, "ket"),
+                }
+                if dims == [2, 2]:
+                    table["concurrence"] = (lambda: qu.concurrence(xs()), lambda: concurrence_ref(rho), 1e-7, "both")
+                    table["quantum_discord"] = (lambda: qu.quantum_discord(xs()), lambda: discord_ref(rho), 1e-4, "both")
+                for fn, (call, ref, tol, domain) in table.items():
+                    if domain == "op" and inp != "sparse-op":
+                        continue
+                    if domain == "ket" and inp != "sparse-ket":
+                        continue
+                    if domain == "qubits" and any(d != 2 for d in dims):
+                        continue
+
+                    def t(call=call, ref=ref, tol=tol, fn=fn):
+                        got, want = call(), ref()
+                        if np.ndim(want) == 2:
+                            return mat_close(got, want, fn, tol=tol)
+                        return scalar_close(got, float(want), fn, tol=tol, rel=False)
+
+                    cx.check("sparse input: the measure of a scipy-sparse state equals the plain-numpy reference",
+                             dict(fn=fn, input=inp, dims=dims, r=r_), t)
